@@ -37,6 +37,12 @@ def selftest():
 def cases(ctx):
     r = ctx.rnd
     t = ctx.tier == "thorough"
+    for i in range(40 if t else 2):
+        ni = r.choice([2, 3])
+        no = r.choice([0, 1, 1])
+        idx = r.randrange(no, ni)
+        tx = gen.gen_tx(r, ni, no, coinbase=False, script_kw={"n_tokens": 0})
+        yield {"k": "scn", "single_oob": True, "tx": wire.tx_encode(tx).hex(), "idx": idx, "flag": [0x03, 0x83, 0x43, 0xC3][(i + ctx.shard) % 4], "value": r.getrandbits(40), "keys": ["%064x" % r.randrange(1, ec.N)]}
     for i in range(250 if t else 12):
         fam = ["p2pk", "p2pkh", "multisig", "multisig"][i % 4] if i < 8 else r.choice(["p2pk", "p2pkh", "multisig", "multisig"])
         ni = r.choice([1, 2, 3, 4])
@@ -65,6 +71,9 @@ def cases(ctx):
             "sep": r.choice([None, None, "lead", "mid", "before_op", "two", "trail"]),
             # a conditional block in front of the spend template: executed / skipped branches, with code separators inside or after them
             "cond": (CONDS[(i + ctx.shard) % len(CONDS)] if i % 3 == 2 else None),
+            # trailing OP_NOPs that make the subscript cross the 253-byte length-prefix boundary (the interpreter is quadratic in the
+            # element count, so the 65536 boundary is left to C03/C10)
+            "pad": (300 if i % 7 == 3 else 1200 if i % 12 == 5 else 0),
             "signer": r.choice(["ref", "ref", "lib"]),
             "seed": r.getrandbits(30),
         }
@@ -159,6 +168,36 @@ def defect_model_subscript(n_unlock, locking):
     return wire.detok(flat_of(top[so:]))
 
 
+def judge_single_oob(ctx, case):
+    """SINGLE flag at an input index without a matching output: the library refuses to produce a preimage (C03/C10), so no spend
+    carrying such a signature may be accepted. The library itself is asked to sign; a refusal ends the scenario."""
+    ctx.hit("single_without_matching_output")
+    x = int(case["keys"][0], 16)
+    pub = ec.ser(ec.mul_g(x), True)
+    lk = [interp.push_of(pub), ("op", 172)]
+    r = ctx.call({"op": "tx_sign", "tx": case["tx"], "flag": case["flag"], "idx": case["idx"], "script": wire.detok(lk).hex(), "value": case["value"], "key": case["keys"][0], "compressed": True})
+    ctx.ev()
+    sigs = []
+    if "ok" in r:
+        sigs.append(("signature produced by the library", bytes.fromhex(r["ok"]["sig"])))
+    # the historic "SIGHASH_SINGLE bug" digest 01 00..00 and its byte reversal
+    for name, d in (("signature over the historic digest 0100..00", b"\x01" + b"\x00" * 31), ("signature over the digest 00..0001", b"\x00" * 31 + b"\x01")):
+        e = ec.sign_det(x, d)
+        sigs.append((name, ec.der_encode(e[0], e[1]) + bytes([case["flag"]])))
+    tx = wire.tx_decode(bytes.fromhex(case["tx"]))
+    for name, sg in sigs:
+        t2 = {"version": tx["version"], "locktime": tx["locktime"], "ins": [dict(i) for i in tx["ins"]], "outs": tx["outs"]}
+        t2["ins"][case["idx"]]["script"] = wire.detok([interp.push_of(sg)])
+        ext = [None] * len(t2["ins"])
+        ext[case["idx"]] = {"locking": wire.detok(lk).hex(), "satoshis": case["value"]}
+        rr = ctx.call({"op": "interp", "tx": wire.tx_encode(t2).hex(), "idx": case["idx"], "ext": ext, "max_steps": 6, "mode": "run"})
+        ctx.ev()
+        ctx.hit("variant")
+        run = rr.get("ok", {}).get("run") if isinstance(rr.get("ok"), dict) else None
+        if run and run["end"] == "ok" and run["post"]["stack"] and interp.truth(bytes.fromhex(run["post"]["stack"][-1])):
+            ctx.viol("spend accepted although its signature's SINGLE flag has no matching output (%s, %s flag)" % (name, "FORKID" if case["flag"] & 0x40 else "legacy"), {"flag": case["flag"]})
+
+
 class Scenario:
     """reference-side model of one spend"""
 
@@ -197,6 +236,8 @@ class Scenario:
         for i, t in enumerate(lk[:j]):
             if t == ("op", 171):
                 last = i
+        if case.get("pad"):
+            lk = lk + [NOP] * case["pad"]
         self.cond = case.get("cond")
         if self.cond:
             pre, pre_last = COND_PREFIX[self.cond]
@@ -347,8 +388,13 @@ def defect_expect(sc, tx, val, un, lk):
 
 
 def judge(ctx, case):
+    if case.get("single_oob"):
+        ctx.nontrivial()
+        return judge_single_oob(ctx, case)
     rnd = random.Random(case["seed"])
     sc = Scenario(case)
+    if case.get("pad"):
+        ctx.hit("subscript>=253")
     if sc.cond:
         ctx.hit("with_conditional")
         ctx.hit("cond_" + sc.cond)
